@@ -117,7 +117,8 @@ def UdfConformance(tier):
     if key not in seen:
       seen.add(key)
       uniq.append(b)
-  lines = c20udf.Replay(uniq, c20udf.TIER_INTERP[tier], workers=4,
+  lines = c20udf.Replay(uniq, c20udf.TIER_INTERP[tier],
+                        workers=4 if tier == 'quick' else 8,
                         per_behaviour=1 if tier == 'quick' else 2)
   res['t_replay'] = clock() - res['t_model']
   shards = max(1, min(common.NCPU, len(lines) // 3000 + 1))
